@@ -246,7 +246,7 @@ ADDED = {
         "are either frozen with the reason they cannot reach an output, or a violation. (D5) every header field and index libPutHeader writes is assigned by libNewHeader.",
  "C09": "Also (G4) the cells holding the sweep's free-piece index lie inside their pages (= C10 T-carve). (G5) storage freed through a global reference is not left referenced; (G6) the marker's tail-iteration test is not a comparison with the byte-granular scan bound. (G7) the Linux osMemMap bounds its entry cursor by the table's capacity and guards the look-back at the previous entry.",
  "C10": "Also (T-section) the page request for a new mixed section dominates the capacity formula of sectQmCount; (T-carve) bookkeeping "
-        "cells cut from a page by stoAllocInner number floor(bytes/size). (T-btree) a searched B-tree node is not used after a restructuring call; (T-sweep) mark bits of the quanta starting at S are cleared under a test of the tag loaded from sect->info[S].",
+        "cells cut from a page by stoAllocInner number floor(bytes/size). (T-btree) a searched B-tree node is not used after a restructuring call; (T-sweep) mark bits of the quanta starting at S are cleared under a test of the tag loaded from sect->info[S]. (T-width) a value asserted below a constant and kept in an integer field fits the field's type.",
  "C12": "Also (J7) no JavaCode fragment built by the generator is dropped. (J5b) single-return runtime methods stay single-return; (J8) operator precedence/associativity table against the Java grammar; (J9) the gj0BCall handlers hand the operands to the Java constructors in order (symbolic evaluation of their list manipulation, rules/listeval.py). (J10) count agreement of the variadic constructors in the Java generator; (J11) character constants that Java's grammar forbids between quotes (backslash, quote, CR, LF) are written as escapes.",
  "C13": "Also (U3) every step that passes the syntax gate reaches the binder, whose entry applies the pending roll-back. (U4) line continuation inside string literals; (U5) the undo predicate selects uses whose node has no meaning.",
  "C15": "Also (P5) messages grouped under one source excerpt are grouped by a key that identifies a physical line. (P4) every #line renumbering reaches the line table on every path; (P6) in inclFile no path from the state switch reaches inclError without restoring the includer's state.",
